@@ -156,7 +156,7 @@ class SynthDef(metaclass=MetaSynthDef):
                 self._finish_build()
                 self._func = func
                 _libsc3.main._current_synthdef = None
-            except Exception:
+            except BaseException:
                 _libsc3.main._current_synthdef = None
                 raise
 
